@@ -786,8 +786,8 @@ def cli_lit(rng, P, cpp, small=False):
         if cpp and len(ds) > 3 and rng.random() < 0.25:
             j = rng.randrange(1, len(ds))
             ds = ds[:j] + "'" + ds[j:]           # C++14 digit separator, removed by the simplecpp lexer
-        return pfx + ds + suf, ty, mag, "lit"
-    return "1", ("int", False), 1, "lit"
+        return pfx + ds + suf, ty, mag, (base == 10, uns, minrank)
+    return "1", ("int", False), 1, (True, False, 0)
 
 
 def cli_char(rng, P, cpp):
@@ -841,21 +841,23 @@ def cli_expr(rng, P, cpp):
             if not fits(P, lty, -v) and not lty[1]:
                 neg = False
         val = conv(P, lty, -v) if neg else v
-        return dict(src="(%s)%s%s" % (tn, "-" if neg else "", src), expect=conv(P, ty, val), kind="K", ty=ty)
+        return dict(src="(%s)%s%s" % (tn, "-" if neg else "", src), expect=conv(P, ty, val), kind="K", ty=ty, neg=neg, lty=lty, v=v)
     op = rng.choice("+-*")
-    a_src, aty, av, _ = cli_lit(rng, P, cpp, small=True)
-    b_src, bty, bv, _ = cli_lit(rng, P, cpp, small=True)
+    a_src, aty, av, alit = cli_lit(rng, P, cpp, small=True)
+    b_src, bty, bv, blit = cli_lit(rng, P, cpp, small=True)
     rty = uac(P, aty, bty)
     exact = av + bv if op == "+" else av - bv if op == "-" else av * bv
     if rty[1]:
         expect = conv(P, rty, exact)
     else:
         expect = exact if fits(P, rty, exact) else None     # signed overflow: undefined, nothing to compare
-    return dict(src="%s %s %s" % (a_src, op, b_src), expect=expect, kind="B", ty=rty, exact=exact, op=op, a=av, b=bv, aty=aty, bty=bty)
+    return dict(src="%s %s %s" % (a_src, op, b_src), expect=expect, kind="B", ty=rty, exact=exact, op=op, a=av, b=bv, aty=aty, bty=bty, alit=alit, blit=blit)
 
 
 def cli_program(exprs):
-    return "void f(void) {\n  long long x;\n" + "".join("  x = %s;\n" % e["src"] for e in exprs) + "}\n"
+    # one function per expression, the expression is the operand of `return` (no enclosing binary operator or assignment whose
+    # implicit conversion cppcheck would apply to the operand's own value)
+    return "".join("long long f%d(void) { return %s; }\n" % (i, e["src"]) for i, e in enumerate(exprs))
 
 
 VT_SIZE = {"char": "char", "short": "short", "int": "int", "long": "long", "long long": "llong", "wchar_t": "wchar_t"}
@@ -875,8 +877,8 @@ def read_dump(path):
             for vs in vf.iter("values"):
                 vals[vs.get("id")] = [v.attrib for v in vs.iter("value")]
         for t in toks.values():
-            if t.get("str") == "=" and t.get("isAssignmentOp") == "true" and t.get("astOperand2"):
-                rhs = toks.get(t["astOperand2"])
+            if t.get("str") == "return" and t.get("astOperand1"):
+                rhs = toks.get(t["astOperand1"])
                 if rhs is None:
                     continue
                 # values of unsigned-typed tokens are printed as biguint: bring them back to the bigint they are
@@ -897,6 +899,8 @@ def classify_cli(P, e, reported):
             ex2 = e["a"] + sb if e["op"] == "+" else e["a"] - sb if e["op"] == "-" else e["a"] * sb
             if reported in (wrap64(ex2), conv(P, (aty[0], False), ex2)):
                 return "fold-mixed-sign-left-signed"
+    if e["kind"] == "K" and e.get("neg") and e["lty"][1] and reported == conv(P, e["ty"], -e["v"]):
+        return "fold-unary-minus-unsigned"        # unary minus on an unsigned operand is not reduced to the operand's type
     if e["kind"] == "C" and e.get("detail") == "char1:high" and P.char_unsigned and reported == e["expect"] - 256:
         return "charlit-host-char-sign"           # narrow character literal valued with the host's signed char
     return None
@@ -908,14 +912,24 @@ def run_cli_case(ctx, res, drv, P, cpp, exprs, tag):
     os.makedirs(d, exist_ok=True)
     src = os.path.join(d, "t.cpp" if cpp else "t.c")
     open(src, "w").write(cli_program(exprs))
-    rc, out, err = core.sh([ctx.cppcheck, "--platform=" + P.name, "--dump", "-q", src], cwd=d, timeout=120)
+    for attempt in range(6):
+        try:
+            rc, out, err = core.sh([ctx.cppcheck, "--platform=" + P.name, "--dump", "-q", src], cwd=d, timeout=120)
+            break
+        except OSError:
+            # the binary is being relinked by a concurrent check (a colleague's run after a /repo change): wait for that build
+            if attempt == 5:
+                raise
+            import time
+            time.sleep(2)
+            ctx.build_repo()
     dump = src + ".dump"
     if not os.path.exists(dump):
         raise core.CheckBroken("cppcheck --dump produced no dump for %s on %s: rc=%s %s" % (src, P.name, rc, (out + err)[-300:]))
     lines = read_dump(dump)
     viol, nknown, mops, mexp = [], 0, [], []
     for i, e in enumerate(exprs):
-        ln = 3 + i
+        ln = 1 + i
         if ln not in lines:
             res.count("cli:no-rhs-token")
             continue
@@ -1010,7 +1024,7 @@ def replay_cli_witness(ctx, res, drv, x, w):
         return []
     P = Plat(w["platform"], vals[w["platform"]])
     e = dict(w["case"])
-    for f in ("ty", "aty", "bty"):
+    for f in ("ty", "aty", "bty", "lty"):
         if f in e:
             e[f] = tuple(e[f])
     k, v = run_cli_case(ctx, res, drv, P, w["lang"] == "cpp", [e], "corpus_%s_%s" % (w["platform"], abs(hash(w["expr"])) % 100000))
@@ -1148,29 +1162,51 @@ def spec_probes(ctx, res, cases, allp):
     res.extra["spec_probe_literals"] = dict(asserted=len(asserts), rejected_by_compiler=len(rejected), contradicted=len(failed))
     res.oblig("spec:literal-values-agree-with-clang", not failed and len(asserts) - len(rejected) > 500, "spec-validation",
               "" if not failed else "clang contradicts the specification value of: %s" % [asserts[i] for i in sorted(failed)[:5]])
-    # (2) reference evaluator + data models against clang targets
-    contradicted, total = [], 0
+    # (2) data models: what clang says about each target (predefined macros)
+    def target_model(tgt):
+        rc, out, err = core.sh(["clang-14", "--target=" + tgt, "-E", "-dM", "-x", "c", "/dev/null"], timeout=60)
+        m = dict(re.findall(r"#define (__SIZEOF_\w+__|__CHAR_UNSIGNED__|__CHAR_BIT__) (\d+)", out))
+        if "__SIZEOF_INT__" not in m:
+            return None
+        return dict(short=int(m["__SIZEOF_SHORT__"]), int=int(m["__SIZEOF_INT__"]), long=int(m["__SIZEOF_LONG__"]), llong=int(m["__SIZEOF_LONG_LONG__"]),
+                    pointer=int(m["__SIZEOF_POINTER__"]), size_t=int(m["__SIZEOF_SIZE_T__"]), wchar_t=int(m["__SIZEOF_WCHAR_T__"]),
+                    float=int(m["__SIZEOF_FLOAT__"]), double=int(m["__SIZEOF_DOUBLE__"]), ldouble=int(m["__SIZEOF_LONG_DOUBLE__"]),
+                    char_unsigned="__CHAR_UNSIGNED__" in m)
+    builtin_bad, file_diff, models = [], [], {}
     for P in allp:
         tgt = CLANG_TARGET.get(P.name)
         if not tgt:
             continue
+        tm = target_model(tgt)
+        if tm is None:
+            continue
+        models[P.name] = tm
+        diff = ["%s: platform %s, clang %s" % (k, P.size[k], tm[k]) for k in ("short", "int", "long", "llong", "pointer", "size_t", "wchar_t", "float", "double", "ldouble") if P.size[k] != tm[k]]
+        if P.char_unsigned != tm["char_unsigned"]:
+            diff.append("char: platform %s, clang %s" % ("unsigned" if P.char_unsigned else "signed", "unsigned" if tm["char_unsigned"] else "signed"))
+        if diff:
+            (builtin_bad if P.name in ("unix32", "unix64", "win32A", "win32W", "win64") else file_diff).append("%s vs --target=%s: %s" % (P.name, tgt, "; ".join(diff)))
+    res.extra["platform_file_vs_clang_target"] = file_diff
+    res.oblig("spec:reference-data-models-agree-with-clang", not builtin_bad and len(models) >= 5, "spec-validation", "; ".join(builtin_bad))
+    # (3) reference evaluator against clang, on the targets whose integer sizes are the platform's (char signedness forced to the platform's)
+    contradicted, total, used = [], 0, []
+    for P in allp:
+        tgt, tm = CLANG_TARGET.get(P.name), models.get(P.name)
+        if not tm or any(P.size[k] != tm[k] for k in ("short", "int", "long", "llong", "pointer", "float", "double", "ldouble")):
+            continue
+        used.append(P.name)
         for cpp in (False, True):
             exprs = [cli_expr(rng, P, cpp) for _ in range(150)]
             exprs = [e for e in exprs if e["expect"] is not None and not (e["kind"] == "C" and e["src"].startswith(("L", "u", "U")))]
             kw = "static_assert" if cpp else "_Static_assert"
             asserts = ['%s((%s) == %d, "");' % (kw, e["src"], e["expect"]) if e["expect"] >= 0 else
                        '%s((%s) == -%d - 1, "");' % (kw, e["src"], -e["expect"] - 1) for e in exprs]
-            extra = ["-funsigned-char"] if (P.char_unsigned and tgt in ("x86_64-linux-gnu",)) else []
-            failed, rejected, err = clang_asserts(ctx, tgt, cpp, asserts, extra)
+            failed, rejected, err = clang_asserts(ctx, tgt, cpp, asserts, ["-funsigned-char" if P.char_unsigned else "-fsigned-char"])
             total += len(asserts) - len(rejected)
-            for i in sorted(failed):
-                # a platform file whose sizes are not the clang target's data model is reported separately (data, not evaluator)
-                contradicted.append("%s/%s: %s" % (P.name, tgt, asserts[i]))
-    datamodel = [c for c in contradicted if "sizeof" in c or any(p in c for p in ("arm64-wchar_t4", "aix_ppc64", "msp430", "mips32"))]
-    other = [c for c in contradicted if c not in datamodel]
-    res.extra["spec_probe_expressions"] = dict(asserted=total, contradicted=len(other), platform_file_vs_clang_target=datamodel[:12])
-    res.oblig("spec:reference-evaluator-agrees-with-clang", not other and total > 1000, "spec-validation",
-              "" if not other else "clang contradicts the reference evaluator: %s" % other[:5])
+            contradicted += ["%s/%s: %s" % (P.name, tgt, asserts[i]) for i in sorted(failed)]
+    res.extra["spec_probe_expressions"] = dict(asserted=total, contradicted=len(contradicted), platforms=used)
+    res.oblig("spec:reference-evaluator-agrees-with-clang", not contradicted and total > 1000, "spec-validation",
+              "" if not contradicted else "clang contradicts the reference evaluator: %s" % contradicted[:5])
 
 
 def replay(ctx, res, rp):
